@@ -5,7 +5,8 @@ import pool_shared as ps
 PROP = 'C11'
 REPLAYERS = {'common.restart_state.step': 'replayers/restart_state.py',
              'common.restart_state.__init__': 'replayers/restart_state.py',
-             'pool.ResultHandler._make_methods.<locals>.on_ack': 'replayers/result_handler.py'}
+             'pool.ResultHandler._make_methods.<locals>.on_ack': 'replayers/result_handler.py',
+             'pool.Supervisor.body': 'replayers/supervisor_body.py'}
 
 ASSUMPTIONS = [
     'A-float: clock arithmetic is exact (SMT reals); IEEE rounding of monotonic() differences is not modelled',
